@@ -327,7 +327,8 @@ func (c *ctx) checkPrograms(tc txCase, b0 []byte, h0 common.Uint256) {
 	}
 }
 
-// checkSensitivity: every single-byte change (xor 0x01 and xor 0x80) of the unsigned part of the
+// checkSensitivity: every single-byte change (xor 0x01 and xor 0x80; thorough: every single bit
+// flip and xor 0xff) of the unsigned part of the
 // encoding that still decodes completely must change the hash exactly when it changes the decoded
 // unsigned value.
 func (c *ctx) checkSensitivity(tc txCase, v1 interfaces.Transaction, b0 []byte, h0 common.Uint256) {
@@ -345,8 +346,12 @@ func (c *ctx) checkSensitivity(tc txCase, v1 interfaces.Transaction, b0 []byte, 
 		r.Violate("C04|unsigned-not-prefix|"+tx.TxType().Name(), "SerializeUnsigned is not a prefix of Serialize", map[string]interface{}{"kind": "tx", "case": tc.name, "bytes": hexs(b0)})
 		return
 	}
+	xors := []byte{0x01, 0x80}
+	if r.Thorough() {
+		xors = []byte{0x01, 0x02, 0x04, 0x08, 0x10, 0x20, 0x40, 0x80, 0xff}
+	}
 	for pos := 0; pos < ulen; pos++ {
-		for _, x := range []byte{0x01, 0x80} {
+		for _, x := range xors {
 			atomic.AddInt64(&c.hashSens, 1)
 			m := append([]byte{}, b0...)
 			m[pos] ^= x
